@@ -118,6 +118,7 @@ def declare(rep):
     rep.rule("C14.decisions", "both operands of every position-dependent comparison in the refiner, contact phases, box test and divider have equal weights", floor=10)
     rep.rule("C14.extrema-sentinels", "running minima start from a value no coordinate exceeds (+infinity / max()), running maxima from one no coordinate is below (-infinity / lowest()): numeric_limits::min() is the smallest POSITIVE double, a tissue with negative coordinates would never lower it", floor=6)
     rep.rule("C14.rounded-positions", "in the automatic polarizer every floor / ceil is taken of a translation-invariant quantity (a coordinate difference divided by the voxel size): rounding an absolute coordinate ties the result to the lattice through the origin of the coordinate system instead of the grid, which is anchored at the tissue (found D22)", floor=3)
+    rep.rule("C14.used-nodes-only", "the automatic polarizer reads the position of a node of a cell's node list only after testing is_used(): the slots freed by the mesh refiner are parked at (0,0,0), a point that does not move with the tissue (found D23)", floor=2)
     rep.rule("C14.grid", "grid quantisation numerators have weight 0; face boxes and global extrema have weight 1 on their own axis", floor=12)
 
 
@@ -200,6 +201,7 @@ def run(rep, prog, tier):
     difference_form(rep, prog, cm)
     grid(rep, prog, cm)
     rounded_positions(rep, prog)
+    used_nodes_only(rep, prog)
     extrema_sentinels(rep, prog)
 
 
@@ -540,3 +542,28 @@ def rounded_positions(rep, prog):
                 rep.violation("C14.rounded-positions", prog, fn, c, "an absolute coordinate is rounded",
                               "%s rounds '%s', whose value changes with a translation of the tissue (weights %s): the result is tied to the lattice through the origin of the coordinate system, while the region grid is anchored at the bounding box of the tissue - the voxel boundaries used here are not the grid's, and the face types the polarizer assigns depend on where the tissue lies" % (fn["qn"], short(arg, 60), tuple(w)))
     return n
+
+
+def used_nodes_only(rep, prog):
+    from ..model import facts_at
+    for fn in prog.repo_functions():
+        if fn.get("cls") != "automatic_polarizer" or not isinstance(fn.get("body"), dict):
+            continue
+        fi = prog.index(fn)
+        for loop in walk(fn["body"]):
+            if loop.get("k") != "CXXForRangeStmt" or not re.search(r"get_node_lst\(\)|node_lst_", render(loop.get("range") or {})):
+                continue
+            var = loop["var"].get("did")
+            uses = [x for x in walk(loop["body"]) if x.get("k") == "CXXMemberCallExpr" and x.get("callee") in ("node::pos",) and strip(call_obj(x) or {}).get("k") == "DeclRefExpr" and strip(call_obj(x))["ref"].get("did") == var]
+            if not uses:
+                continue
+            bad = []
+            for u in uses:
+                ok_ = any(a.get("k") == "CXXMemberCallExpr" and a.get("callee") == "node::is_used" and t and strip(call_obj(a) or {}).get("k") == "DeclRefExpr" and strip(call_obj(a))["ref"].get("did") == var for a, t in facts_at(fn, fi, u, stop_at=loop))
+                if not ok_:
+                    bad.append(u)
+            if bad:
+                rep.violation("C14.used-nodes-only", prog, fn, bad[0], "the position of an unused node slot is read",
+                              "%s reads n.pos() for every slot of a cell's node list (line %s) without testing n.is_used(): the slots freed by the mesh refiner are reset to (0,0,0), so as soon as one cell has a free slot (the solver polarizes right after refine_meshes, before any rebase) the origin of the coordinate system is treated as a point of the tissue - the region grid then spans from the tissue to the origin and the face types depend on where the tissue lies" % (fn["qn"], bad[0].get("l")))
+            else:
+                rep.ok("C14.used-nodes-only", prog, fn, loop, "%s: n.pos() read only for used nodes" % fn["qn"])
